@@ -10,7 +10,7 @@ BASE = dict(
     DenomIds=S(), TokenIds=S(), DNames=S(), TDescs=S(['']),
     Amts=S(), GovAmts=S(), SendDenoms=S(), VestEnds=S(),
     Fees=S([0]), Kinds=S(), SignerSets='exact', ExecOn=False,
-    MaxDeliver=5, MaxTxLen=1, Mints=S([0]), NextKinds=S(['BeginBlock']), FailKeep=1, SimSample=0, BlockKeep=1,
+    MaxDeliver=5, MaxTxLen=1, Fees2=S([0]), Mints=S([0]), NextKinds=S(['BeginBlock']), FailKeep=1, SimSample=0, BlockKeep=1,
     ViewTopics=S(), ViewDids=S(), ViewDenoms=S(), ViewTokens=S(),
 )
 
@@ -107,9 +107,9 @@ def preset(pid, tier):
         c = mk(Topics=S(['t1']), ViewTopics=S(['t1']), RecVals=S(['v1']), FeePayers=S(['none', 'a2']), Accts=S(['a1', 'a2']),
                Dids=S(['d1']), ViewDids=S(['d1']), Keys=S(['k1']), VmNames=S(['v1']), DocNames=S(['A1']),
                DenomIds=S(['n1']), TokenIds=S(['i1']), DNames=S(['x']), ViewDenoms=S(['n1']), ViewTokens=S(['i1']),
-               Kinds=kinds, Fees=S([0, 1]), MaxTxLen=2, MaxDeliver=2 if q else 3, MaxHeight=2, NextKinds=S(['BeginBlock', 'Redeliver']))
+               Kinds=kinds, Fees=S([0, 1]), Fees2=S([0, 3, 2000]), MaxTxLen=2, MaxDeliver=2, MaxHeight=2, NextKinds=S(['BeginBlock', 'Redeliver']))
         big = copy.deepcopy(c)
-        big.update(Accts=S(['a1', 'a2', 'a3']), FeePayers=S(['none', 'a1', 'a3']), MaxDeliver=20, MaxHeight=5, FailKeep=2,
+        big.update(Accts=S(['a1', 'a2', 'a3']), FeePayers=S(['none', 'a1', 'a3']), MaxDeliver=20, MaxHeight=5, FailKeep=2, Fees2=S([0, 3]),
                    Kinds=kinds | S(['aol.DeleteWriter']), DocNames=S(['A1', 'A2', 'R1']), Keys=S(['k1', 'k2']))
         # rollback probes over a one-account mixed alphabet: [m1, m2, always-failing] must leave nothing behind, in the stores or in process memory
         pr = mk(Topics=S(['t1']), ViewTopics=S(['t1']), RecVals=S(['v1']), Accts=S(['a1']), Dids=S(['d1']), ViewDids=S(['d1']), Keys=S(['k1']), VmNames=S(['v1']), DocNames=S(['A1']),
@@ -122,8 +122,11 @@ def preset(pid, tier):
         mcc = did(DocNames=docs, MaxDeliver=4 if q else 5, MaxHeight=3 if pid == 'C05' else 2,
                   NextKinds=ALL_NEXT if pid == 'C05' else (S(['BeginBlock', 'Redeliver']) if pid == 'C04' else S(['BeginBlock'])))
         simc = did(Accts=S(['a1', 'a2', 'a3']), Dids=S(['d1', 'd2', 'dc']), ViewDids=S(['d1', 'd2', 'dc']),
-                   DocNames=S(['A1', 'A2', 'B12', 'C1', 'D2', 'E1', 'F12', 'R1', 'U1', 'N0', 'EMP']), ForeignVm=True, MaxDeliver=30, MaxHeight=6, NextKinds=ALL_NEXT_R, FailKeep=25)
+                   DocNames=S(['A1', 'A2', 'B12', 'C1', 'D2', 'E1', 'F12', 'R1', 'U1', 'X1', 'N0', 'EMP']), ForeignVm=True, MaxDeliver=30, MaxHeight=6, NextKinds=ALL_NEXT_R, FailKeep=25)
         tourc = did(DocNames=S(['A1', 'A2', 'F12', 'U1']) if q else S(['A1', 'A2', 'C1', 'D2', 'F12', 'U1']), Keys=S(['k1', 'k2']) if q else S(['k1', 'k2', 'k3']), MaxDeliver=2 if q else 3, MaxHeight=2)
+        if pid == 'C11':
+            # documents whose method ids carry the twin did's prefix: fired at every toured state, with the DID field naming the twin
+            tourc = dict(tourc, DocNames=tourc['DocNames'] | S(['X1']))
         sims = [sim(simc, 150 if q else 3000, 50)]
         if pid in ('C03', 'C04'):
             # few document shapes, so that rich documents (which name the OTHER did as controller) are stored often, and cross-entry proofs (DidCross) meet
@@ -136,6 +139,10 @@ def preset(pid, tier):
             legacy = did(Accts=S(['a1', 'a2']), Dids=S(['d1', 'dc']), ViewDids=S(['d1', 'dc']), DocNames=S(['A1', 'A2']), Keys=S(['k1', 'k2']), VmNames=S(['v1']),
                          ForeignVm=True, LegacyGenesis=True, MaxDeliver=12, MaxHeight=5, NextKinds=ALL_NEXT, FailKeep=25)
             sims.append(sim(legacy, 40 if q else 600, 30, genesis=dict(legacydid=True)))
+            # a registry with more entries than any default page size (150 bulk entries sorting before the alphabet's DIDs)
+            bulk = did(Accts=S(['a1', 'a2']), Dids=S(['d1', 'd2']), ViewDids=S(['d1', 'd2']), DocNames=S(['A1', 'A2']), Keys=S(['k1', 'k2']), VmNames=S(['v1']),
+                       MaxDeliver=10, MaxHeight=5, NextKinds=ALL_NEXT, FailKeep=25)
+            sims.append(sim(bulk, 24 if q else 300, 30, genesis=dict(bulk=150)))
         return dict(mc=mcc, props=props, invs=invs, tour=tourc, sims=sims, mc_timeout=2400)
     if pid in ('C06', 'C12'):
         props = {'C06': ['P_C06'], 'C12': ['P_C12']}[pid]
@@ -157,7 +164,13 @@ def preset(pid, tier):
         # The judge (Trace.tla) keeps the intended behaviour: on a correct tree every such message is a predicted stateless rejection.
         hostile = pn(Accts=S(['a1', 'a2']), DenomIds=S(['n1', 'nz']), TokenIds=S(['iz', 'iy']), ViewDenoms=S(['n1', 'nz']), ViewTokens=S(['iz', 'iy']),
                      Kinds=S(['pnft.CreateDenom', 'pnft.Mint', 'pnft.Transfer', 'pnft.Burn']), MaxDeliver=20, MaxHeight=4, FailKeep=20, Deviations=S(['nulids']))
-        return dict(mc=mcc, props=props, invs=invs, tour=tourc, sims=[sim(simc, 150 if q else 3000, 60), sim(hostile, 40 if q else 600, 30)], mc_timeout=2400)
+        # dense traffic over aliasing-prone identifier pairs: a prefix pair ("a", "ab") and a case pair ("a", "A"), one token id, two accounts
+        pair1 = pn(Accts=S(['a1', 'a2']), DenomIds=S(['n1', 'n2']), TokenIds=S(['i1']), ViewDenoms=S(['n1', 'n2']), ViewTokens=S(['i1']), MaxDeliver=30, MaxHeight=6,
+                   NextKinds=ALL_NEXT, FailKeep=30)
+        pair2 = pn(Accts=S(['a1', 'a2']), DenomIds=S(['n1', 'nc']), TokenIds=S(['i1', 'ic']), ViewDenoms=S(['n1', 'nc']), ViewTokens=S(['i1', 'ic']), MaxDeliver=30, MaxHeight=6,
+                   NextKinds=ALL_NEXT, FailKeep=30)
+        return dict(mc=mcc, props=props, invs=invs, tour=tourc,
+                    sims=[sim(simc, 150 if q else 3000, 60), sim(hostile, 40 if q else 600, 30), sim(pair1, 50 if q else 800, 40), sim(pair2, 30 if q else 500, 40)], mc_timeout=2400)
     if pid == 'C07':
         mcc = burn(MaxDeliver=3 if q else 4, MaxHeight=5, GovAmts=S([5]), NextKinds=S(['BeginBlock', 'GovSchedule']))
         simc = burn(Accts=S(['a1', 'a2', 'a3']), Amts=S([0, 1, 7, 1000]), Kinds=S(['bank.Send', 'bank.SendAcct', 'bank.MultiSend', 'vesting.Create']),
@@ -182,7 +195,10 @@ def preset(pid, tier):
         # generator that believes '/' is fine in topic names (the genesis key separator); the judge keeps the published alphabet
         slash = aol(Accts=S(['a1', 'a2']), Topics=S(['t1', 'ts']), ViewTopics=S(['t1', 'ts']), MaxDeliver=12, MaxHeight=5, NextKinds=S(['BeginBlock', 'ExportImportBegin']),
                     FailKeep=30, Deviations=S(['slashtopics']))
-        return dict(mc=mcc, props=['P_C08'], invs=['I_Genesis'], sims=[sim(simc, 120 if q else 2500, 70), sim(slash, 30 if q else 400, 30)], mc_timeout=2400)
+        bulk = did(Accts=S(['a1', 'a2']), Dids=S(['d1', 'd2']), ViewDids=S(['d1', 'd2']), DocNames=S(['A1', 'A2']), Keys=S(['k1', 'k2']), VmNames=S(['v1']),
+                   MaxDeliver=10, MaxHeight=5, NextKinds=S(['BeginBlock', 'ExportImportBegin']), FailKeep=25)
+        return dict(mc=mcc, props=['P_C08'], invs=['I_Genesis'],
+                    sims=[sim(simc, 120 if q else 2500, 70), sim(slash, 30 if q else 400, 30), sim(bulk, 16 if q else 200, 30, genesis=dict(bulk=150))], mc_timeout=2400)
     raise KeyError(pid)
 
 
